@@ -387,8 +387,7 @@ func fnFlushDb(ctx *cmdContext, args map[string]any) (output respValue, err erro
 }
 
 func fnDbSize(ctx *cmdContext, args map[string]any) (output respValue, err error) {
-	size, _ := ctx.cs.dss.dbSize(ctx.cs.selectedDb)
-	output.data = size
+	output.data = ctx.dsc.dbSize()
 	return
 }
 
